@@ -64,7 +64,7 @@ func RandomStackCfg(rng *rand.Rand, o GenOpts) StackCfg {
 			lc.Sets = pick(rng, 1, 2, 4, 8)
 			lc.MSHR = 1 + rng.Intn(4)
 			lc.Banks = pick(rng, 1, 1, 2)
-			lc.BankLat = 1 + rng.Intn(3)
+			lc.BankLat = pick(rng, 1, 2, 3, 3, 5, 10)
 			lc.DirLat = rng.Intn(3)
 			if lc.Kind != "wb" {
 				if lc.DirLat == 0 && !o.ZeroLat {
